@@ -73,6 +73,21 @@ func (l *baseLeaf) getSegment() *Segment {
 
 func (l *baseLeaf) SetHeaderMatcher(m *HeaderMatcher) {
 	l.headerMatcher = m
+
+	// A route with an optional last segment also has an implicit leaf for its
+	// short form (see addLeaf), which must be constrained the same way.
+	if !l.segment.Optional || l.parent == nil {
+		return
+	}
+	tree := l.parent
+	if tree.getParent() != nil {
+		tree = tree.getParent()
+	}
+	for _, sibling := range tree.getLeaves() {
+		if sibling.getSegment() == l.parent.getSegment() && sibling.Route() == l.Route() {
+			sibling.SetHeaderMatcher(m)
+		}
+	}
 }
 
 func (l *baseLeaf) matchHeader(header http.Header) bool {
